@@ -23,7 +23,10 @@ THEOREMS = ['MindsVerif.Props.C10.' + n for n in (
     'C10_main',
     # regression examples about older variants of the code (every finding they document is repaired)
     'C10_regression_1', 'C10_regression_2', 'C10_regression_3', 'C10_regression_4', 'C10_regression_6',
-    'C10_old_resolver_partial')]
+    'C10_old_resolver_partial',
+    # round 6: the join planner's own pushdown site; a visit log that stops at some node kind; the case-mapping as a parameter
+    'C10_pushdown_join', 'C10_partial_pushdown_join', 'C10_witness_udf_stop', 'C10_pushdown_needs_complete_log',
+    'C10_norm_route', 'C10_norm_instance', 'C10_witness_norm', 'C10_norm_route_needs_same')]
 ASSUME = [
     'QueryPlanner.__init__, resolve_database_table, adapt_dbt_query (source qualification), PlanJoinTablesQuery.resolve_table (own transcription: integration, rest, '
     'aliases, bare-name flag) / process_table, get_predictor, get_query_info, both check_single_integration with the '
@@ -35,7 +38,12 @@ ASSUME = [
     'hypothesis skipLeafOnly of C10_partial_pushdown is checked on every generated tree (hyp:skipLeafOnly)',
     'C10_model_no_hidden_state holds by construction of the model (a map); the predseq stream (one real planner, a sequence '
     'of model references) is what ties it to the code',
-    'names are ASCII: str.lower / str.isdigit on non-ASCII text are not modelled',
+    'names are ASCII in Model/Route.lean (str.isdigit on non-ASCII text is not modelled); Model/RouteNorm.lean has the case-mapping of '
+    'every site (constructor, resolver, cut) as a parameter: the norm stream instantiates it with Python str.lower (a code-point table '
+    'per case, character-wise; capital sigma is not generated) on catalogs / statements with non-ASCII and case-variant names',
+    'PlanJoin.check_single_integration is tied by the plan stream (field PlanJoin.check_single_integration / stripped-identifiers '
+    '(join site)) on every generated select whose FROM is a join; C10_pushdown_join is about the complete visit log, which the '
+    'plan stream (query_info, visit-log) ties to what the live find_objects collects',
     'theorems cover catalog normalisation, the resolvers, model look-up, the pushdown decision and the stripping; the rest of '
     'plan_select (sub-select / CTE / nested-select planning, join planner bookkeeping) is covered by the impl-level routing oracle only',
 ]
@@ -67,6 +75,10 @@ def classify_ref(sp, ident, path):
         tags.append('case-operand')
     if ('Function', 'from_arg') in path:
         tags.append('function-from-arg')
+    # a sub-query written in GROUP BY / HAVING / ORDER BY (the innermost select the reference belongs to is such a sub-query)
+    for i, el in enumerate(path):
+        if el in (('Select', 'order_by'), ('Select', 'having'), ('Select', 'group_by')) and ('Select', 'from_table') in path[i + 1:]:
+            tags.append('sub-query-in-' + el[1].replace('_', '-'))
     return tags
 
 
@@ -123,6 +135,17 @@ def probe_ast(cat, ast, sql, deep=True, counterfactual=True):
             for part in (n.where, n.targets):
                 if part is not None:
                     derived_outer |= {id(i) for i, _ in R.table_refs(part if not isinstance(part, list) else A.Tuple(items=part))}
+    # table references inside sub-queries of the targets / WHERE of a select that joins a table with a TIME-SERIES model
+    ts_names = {n.lower() for n in cat.extras}
+    ts_outer = set()
+    for n, _ in all_nodes(ast):
+        if isinstance(n, A.Select) and isinstance(n.from_table, A.Join):
+            ops = [n.from_table.left, n.from_table.right]
+            if any(isinstance(o, A.Identifier) and (R.spec_model(sp, [p for p in o.parts if isinstance(p, str)]) or (None, '', None))[1].lower() in ts_names
+                   for o in ops):
+                for part in (n.where, n.targets):
+                    if part is not None:
+                        ts_outer |= {id(i) for i, _ in R.table_refs(part if not isinstance(part, list) else A.Tuple(items=part))}
     # the 'dbt' context of plan_join_ts.adapt_dbt_query: CREATE TABLE / INSERT / UPDATE..FROM whose select joins a
     # sub-select `(select … from SRC)` with a time-series model; there SRC gets the statement's target integration
     dbt_tags = {}
@@ -160,6 +183,8 @@ def probe_ast(cat, ast, sql, deep=True, counterfactual=True):
         tags = classify_ref(sp, ident, path)
         if id(ident) in derived_outer:
             tags.append('subquery-of-select-from-derived-table')
+        if id(ident) in ts_outer:
+            tags.append('sub-query-of-ts-model-join')
         tags += dbt_tags.get(id(ident), [])
         refs.append(dict(parts=parts, kind=kind, db=db, rest=rest, path=path, tags=tags))
     base = dict(sql=sql, catalog=cat.kwargs())
@@ -480,6 +505,50 @@ def run(chk):
             for q3 in (q1, q1.swapcase() if '`' not in q1 else 'Int1'):
                 stmts.append((c, 'DELETE FROM %s.t WHERE %s.t.x = 1' % (q1, q3), 'delete', ['delete-qualified']))
                 stmts.append((c, 'DELETE FROM %s.t WHERE %s.t.x = 1 AND (%s.t.y > 0 OR t.id IN (SELECT id FROM %s.t2))' % (q1, q3, q3, q2), 'delete', ['delete-qualified']))
+    # ---- round 6 (a): a sub-query on another integration / on a model nested at every expression position (argument of a
+    # user-defined function or llm(), CASE operand / branches, cast, window specification, BETWEEN, IN list, NOT, …) x every
+    # place where the planner decides what is sent whole (plain select, join of one / two integrations, join with a model,
+    # derived table, CTE body, UNION operand, nested select, INSERT..SELECT, CREATE TABLE AS); every (position, clause, site)
+    # triple occurs in every run, the catalogs rotate
+    hcats = [fixed[0], fixed[1], fixed[2], mcats[0]]
+    k = int(chk.seed)
+    for site in R.HIDDEN_SITES:
+        cands = [hc for hc in hcats if (hc.pm is not None or site != 'join-model') and (hc.dns is not None or site != 'cte')]
+        for clause in ('target', 'where'):
+            for pname, _ in R.HIDDEN_VALUE + (R.HIDDEN_PRED if clause == 'where' else []):
+                k += 1
+                for hc in (cands if (broken or not quick) else [cands[k % len(cands)]]):
+                    for sql, kind, feats in R.hidden_statements(rng, hc, clauses=(clause,), sites=[site], positions=[pname]):
+                        stmts.append((hc, sql, kind, feats))
+    # the same inside GROUP BY / HAVING / ORDER BY (no planner path looks for sub-queries there: KF-C10-13)
+    for ci, hc in enumerate(hcats[:2]):
+        for sql, kind, feats in R.hidden_statements(rng, hc, clauses=('order', 'having', 'group'), sites=['table', 'join1', 'join2', 'derived'],
+                                                    positions=['udf', 'fn', 'case-when', 'binop', 'in-sub']):
+            stmts.append((hc, sql, kind, feats))
+    # ---- round 6 (b): tables / columns / aliases with dots, spaces, back-quotes, capitals, reserved words
+    ocats = [R.Cat([('n', 'int1'), ('n', 'int2')], None, None, 'mindsdb'), R.Cat([('d', 'int1', 'data', 'sql'), ('n', 'INT2')], None, None, 'int1')]
+    for i in range(120 if quick else 1500):
+        oc = ocats[i % 2]
+        og = R.OddGen(rng, dbs=('int1', 'int2') if i % 3 else ('int1',), spell_db=lambda db: R.spell(rng, db))
+        stmts.append((oc, og.select(two=bool(i % 3)), 'select', sorted(og.features) + ['odd-names']))
+    # ---- round 6 (c): non-ASCII / case-variant integration and project names (lower() != casefold(), lower() != ASCII lower,
+    # lower() changing the length): generated statements with the database names replaced, whatever their spelling
+    norm_stmts = set()
+    for i in range(160 if quick else 2500):
+        base = rng.choice([fixed[0], fixed[2], R.Cat([('n', 'int1'), ('n', 'int2')], None, ('list', [('pred', 'proj')]), rng.choice(['int1', 'proj', 'mindsdb']))])
+        names = rng.sample(R.NONASCII_NAMES, 3)
+        mapping = dict(int1=names[0], int2=names[1], proj=names[2])
+        if i % 4 == 0:
+            del mapping['int2']
+        g = R.QGen(rng, base, adversarial=0.03)
+        if i % 5 == 0:
+            sql, kind = rng.choice(R.hidden_statements(rng, base, sites=['join1', 'table', 'join2'], positions=['udf', 'fn', 'case-when']))[:2]
+        else:
+            sql, kind = g.statement()
+        nc = R.rename_cat(rng, base, mapping)
+        nsql = R.rename_dbs(rng, sql, mapping)
+        stmts.append((nc, nsql, kind, sorted(g.features) + ['non-ascii-names']))
+        norm_stmts.add((nc.key(), nsql))
     n_probe_fail = 0
     for c, sql, kind, feats in stmts:
         chk.count((c.key(), sql))
@@ -492,11 +561,18 @@ def run(chk):
             bump('status/unparsed')
             continue
         node = R.abstract(ast)
-        if isinstance(ast, (A.Select, A.Union, A.Intersect, A.Except)):
+        if (c.key(), sql) in norm_stmts:
+            # the ASCII model does not apply: the generic model with Python's str.lower as THE normaliser of every site
+            if isinstance(ast, (A.Select, A.Union, A.Intersect, A.Except)):
+                lines.append(R.norm_line(c, ast, sql))
+                metas.append(('norm', c, (sql, ast)))
+        elif isinstance(ast, (A.Select, A.Union, A.Intersect, A.Except)):
             names = [R.enc(x) for x in R.local_names(ast)]
             lines.append(json.dumps(dict(op='plan', cat=c.model(), ctes=[R.enc(x) for x in R.cte_names(ast)], names=names, node=node)))
             metas.append(('plan', c, (sql, ast)))
         for db in ('int1', 'mindsdb'):
+            if (c.key(), sql) in norm_stmts:
+                break
             lines.append(json.dumps(dict(op='strip', db=R.enc(db), par='n', slot='a', names=[R.enc(x) for x in R.local_names(ast)], node=node)))
             metas.append(('strip', db, (sql, ast)))
         fs, status = probe_case(c, sql, deep=True)
@@ -512,7 +588,7 @@ def run(chk):
         outs = None
         chk.oblige('corr:route-driver', 'correspondence', False, 'driver failed: %s' % e)
     if outs is not None:
-        res = {k: [0, 0, None] for k in ('cat', 'route', 'predseq', 'plan', 'strip')}
+        res = {k: [0, 0, None] for k in ('cat', 'route', 'predseq', 'plan', 'strip', 'norm')}
         skipped_big = []
         variants = R.Variants()
         for (op, c, arg), o in zip(metas, outs):
@@ -571,6 +647,14 @@ def run(chk):
                 bump('plan/%s' % ('pushed' if msingle else 'not-pushed'))
                 if not o['skipLeafOnly']:
                     skipped_big.append(sql)
+                # the join planner's own pushdown site (no user-function test): same get_query_info, same cut
+                why = why or R.join_site_compare(c, ast, sql, o)
+                if isinstance(ast, A.Select) and isinstance(ast.from_table, A.Join):
+                    bump('plan-join/%s' % ('pushed' if o['singleJoinN'] else 'not-pushed'))
+            elif op == 'norm':
+                sql, ast = arg
+                why = R.norm_compare(c, ast, sql, o)
+                bump('norm/%s' % ('pushed' if o['single'] else ('join-pushed' if o['singleJoin'] else 'not-pushed')))
             elif op == 'strip':
                 sql, ast = arg
                 q = copy.deepcopy(ast)
@@ -592,6 +676,7 @@ def run(chk):
                    'a generated tree holds a non-atomic node in a slot the walker skips: %s' % skipped_big[:2])
     for c, sql, kind, feats in stmts[:3]:
         chk.samples.append(dict(sql=sql, catalog=c.kwargs(), features=feats))
+    chk.samples.append(dict(theorem='C10_pushdown_join : skipLeafOnly q → checkSingleJoinG n c ctes (visit q) = some i → ∀ parts ∈ allTables q, belongsG n c ctes i parts   -- every case-mapping n'))
     chk.samples.append(dict(theorem='C10_resolvers : ∀ c parts, defaultOk c → parts ≠ [] → routeJoinOperand c parts = routeSimple c parts'))
     chk.samples.append(dict(theorem='C10_partial_pushdown : skipLeafOnly q → planTop c ctes q = some steps → ∃ i, steps = [fetch i (strip i q)] ∧ ∀ parts ∈ allTables q, belongs c ctes i parts'))
     return chk.finish(assumptions=ASSUME)
